@@ -29,7 +29,22 @@ def _is_value(t):
     return z3.is_int_value(t) or z3.is_rational_value(t) or z3.is_string_value(t) or z3.is_true(t) or z3.is_false(t)
 
 
+_HQ = {}
+
+
 def has_quant(f):
+    k = f.get_id()
+    hit = _HQ.get(k)
+    if hit is not None and hit[0].eq(f):
+        return hit[1]
+    r = _has_quant(f)
+    if len(_HQ) > 200000:
+        _HQ.clear()
+    _HQ[k] = (f, r)
+    return r
+
+
+def _has_quant(f):
     seen, stack = set(), [f]
     while stack:
         x = stack.pop()
@@ -73,6 +88,7 @@ class Ctx:
         self.alloc = z3.K(I, z3.BoolVal(False))   # refs allocated on this path (SMT heap)
         self.fresh_refs = []       # refs of SMT objects/lists allocated on this path
         self.no_branch = 0
+        self.merge_fresh = set()
         self.literals = set()
         self.subst = []
         self.written = []          # heap writes to SMT lists / fields on this path (frame conditions)
@@ -87,6 +103,11 @@ class Ctx:
             f = z3.Function(f"{name}!{self.counter}", *[p.sort() for p in self.params], sort)
             return f(*self.params)
         return z3.Const(f"{name}!{self.counter}", sort)
+
+    def bound(self, name, sort=None):
+        """a constant usable as bound variable of a quantifier (never a Skolem application)"""
+        self.counter += 1
+        return z3.Const(f"{name}!{self.counter}", sort or I)
 
     def push_param(self, k, guard):
         self.params.append(k)
@@ -122,6 +143,11 @@ class Ctx:
         if isinstance(f, bool):
             f = z3.BoolVal(f)
         if z3.is_true(f):
+            return
+        if z3.is_and(f) and not self.params:
+            # conjuncts separately: the quantifier-free ones stay visible to the cheap feasibility check
+            for c in f.children():
+                self.assume(c)
             return
         if not self.guards and not self.params:
             self._note_equality(f)
@@ -248,8 +274,8 @@ class Ctx:
     def cell(self, ref):
         return self.cheap[ref.addr]
 
-    def mutating(self):
-        if self.no_branch:
+    def mutating(self, ref=None):
+        if self.no_branch and not (ref is not None and ref.get_id() in self.merge_fresh):
             raise NeedFork("mutation")
 
     # ------------------------------------------------------------------ SMT heap
@@ -276,7 +302,7 @@ class Ctx:
     def set_list(self, lst, new_len, item_fn_or_store):
         """functional update of one SMT list. item_fn_or_store: ('store', idx, val) or
         ('fn', lambda k: [component terms])"""
-        self.mutating()
+        self.mutating(lst.z)
         comps = lst.elem.comps()
         if item_fn_or_store[0] == "store":
             _, idx, val = item_fn_or_store
@@ -302,14 +328,20 @@ class Ctx:
         return self.smap(("f", cname, fname, path), [I], sort)
 
     def new_sref(self, name):
+        if self.params:
+            raise EngineError("allocation inside a parametric (per-element) evaluation")
         r = self.fresh(name, I)
-        self.assume(r > 0)
-        self.assume(z3.Not(z3.Select(self.alloc, r)))
-        self.assume(z3.Not(self.is_old(r)))
+        # facts about a fresh symbol: assumed unconditionally, also when the allocation sits under a merge guard
+        # (otherwise the heap stores at r could clobber other objects where the guard is false)
+        self.pc.append(r > 0)
+        self.pc.append(z3.Not(z3.Select(self.alloc, r)))
+        self.pc.append(z3.Not(self.is_old(r)))
         self.alloc = z3.Store(self.alloc, r, z3.BoolVal(True))
         for other in self.fresh_refs:
-            self.assume(r != other)
+            self.pc.append(r != other)
         self.fresh_refs.append(r)
+        if self.no_branch:
+            self.merge_fresh.add(r.get_id())
         return r
 
     _is_old = z3.Function("is_old", I, B)
